@@ -132,6 +132,7 @@ type RT struct {
 	errs      map[[2]int]*UserErr
 	panics    map[[2]int]interface{}
 	ek, pk    map[int]int // fn id -> error / panic kind (from the Fn specs seen)
+	errT      map[int]string
 	curOp     int
 	advance   func(time.Duration)
 	ftypes    map[*Fn]reflect.Type
@@ -147,7 +148,7 @@ type RT struct {
 }
 
 func newRT() *RT {
-	return &RT{cbCalls: map[int]int{}, infos: infoSlots{map[int]*dig.ProvideInfo{}, map[int]*dig.DecorateInfo{}, map[int]*dig.InvokeInfo{}}, decoIDs: map[int]bool{}, ftypes: map[*Fn]reflect.Type{}, execs: map[int]int{}, errs: map[[2]int]*UserErr{}, panics: map[[2]int]interface{}{}, ek: map[int]int{}, pk: map[int]int{}, active: map[int]int{}}
+	return &RT{cbCalls: map[int]int{}, infos: infoSlots{map[int]*dig.ProvideInfo{}, map[int]*dig.DecorateInfo{}, map[int]*dig.InvokeInfo{}}, decoIDs: map[int]bool{}, ftypes: map[*Fn]reflect.Type{}, execs: map[int]int{}, errs: map[[2]int]*UserErr{}, panics: map[[2]int]interface{}{}, ek: map[int]int{}, pk: map[int]int{}, errT: map[int]string{}, active: map[int]int{}}
 }
 
 func (rt *RT) newTok(fn, exec int, slot string, elem int) int64 {
@@ -174,6 +175,17 @@ func (rt *RT) errOf(fn, exec int) *UserErr {
 	rt.errs[k] = e
 	return e
 }
+
+// errValueOf: the error value a failing execution returns: the sentinel, or
+// (EK 2) a typed nil pointer in the error interface - not nil, so a failure.
+func (rt *RT) errValueOf(fn, exec int) error {
+	if rt.ek[fn] == 2 && rt.errT[fn] == "" {
+		return typedNilErr
+	}
+	return rt.errOf(fn, exec)
+}
+
+var typedNilErr error = (*HErrPtr)(nil)
 
 func (rt *RT) panicOf(fn, exec int) interface{} {
 	k := [2]int{fn, exec}
@@ -486,7 +498,7 @@ func (rt *RT) typeOfFn(f *Fn) reflect.Type {
 
 // call is the body shared by every materialised function.
 func (rt *RT) call(f *Fn, args []reflect.Value) []reflect.Value {
-	rt.ek[f.ID], rt.pk[f.ID] = f.EK, f.PK
+	rt.ek[f.ID], rt.pk[f.ID], rt.errT[f.ID] = f.EK, f.PK, f.ErrT
 	exec := rt.execs[f.ID]
 	rt.execs[f.ID]++
 	ev := Event{Kind: EvEnter, Op: rt.curOp, Fn: f.ID, Exec: exec}
@@ -562,7 +574,7 @@ func (rt *RT) call(f *Fn, args []reflect.Value) []reflect.Value {
 	errVal := reflect.Zero(et)
 	if outcome == FaultError {
 		errVal = reflect.New(et).Elem()
-		errVal.Set(reflect.ValueOf(rt.errOf(f.ID, exec)))
+		errVal.Set(reflect.ValueOf(rt.errValueOf(f.ID, exec)))
 	}
 	ft := rt.typeOfFn(f)
 	for i, r := range f.R {
